@@ -204,6 +204,22 @@ fn leave() {
     });
 }
 
+/// The scripted transport records every request and every delivered datagram on the calling thread, inside the call: those
+/// copies are the recorder's memory, not the library's, and are taken off the measured peak (a lower bound of the library's own
+/// peak - never an over-estimate; a client that legitimately echoes a large challenge a thousand times is not charged for the log).
+fn recorded_bytes(events: &[hook::Event]) -> usize {
+    events
+        .iter()
+        .map(|e| {
+            match e {
+                hook::Event::Send { data, .. } => data.len(),
+                hook::Event::Recv { out: hook::RecvOut::Data(d), .. } => d.len(),
+                _ => 0,
+            }
+        })
+        .sum()
+}
+
 /// Run `f` (a public entry point of the library) against the scripted transport.
 pub fn run_call<T: Serialize>(
     script: &ScriptJ,
@@ -227,6 +243,7 @@ pub fn run_call<T: Serialize>(
     let (alloc_peak, alloc_max) = crate::alloc::read();
     leave();
     let events = hook::uninstall();
+    let alloc_peak = alloc_peak.saturating_sub(recorded_bytes(&events));
     let outcome = match r {
         Ok(Ok(v)) => Outcome::Ok(v),
         Ok(Err(k)) => Outcome::Err(k),
@@ -260,6 +277,7 @@ pub fn run_call_json(
     let (alloc_peak, alloc_max) = crate::alloc::read();
     leave();
     let events = hook::uninstall();
+    let alloc_peak = alloc_peak.saturating_sub(recorded_bytes(&events));
     let outcome = match r {
         Ok(Ok(v)) => Outcome::Ok(v),
         Ok(Err(k)) => Outcome::Err(k),
